@@ -15,13 +15,14 @@ from concurrent.futures import ThreadPoolExecutor
 
 VERIF = os.path.dirname(os.path.dirname(os.path.abspath(__file__)))
 REPO = os.environ.get("P2SH_SRC", "/repo")
-BUILD = os.path.join(VERIF, ".build")
+BUILD = os.environ.get("VF_BUILD") or os.path.join(VERIF, ".build")
 PROBE_DIR = os.path.join(VERIF, "probe")
 PROBE_BIN = os.path.join(BUILD, "probe", "debug", "p2sh-probe")
 P2SH_DEV = os.path.join(BUILD, "p2sh", "debug", "p2sh")
 P2SH_REL = os.path.join(BUILD, "p2sh", "release", "p2sh")
-EVIDENCE = os.path.join(VERIF, "evidence")
-REPLAYS = os.path.join(VERIF, "replays")
+_OUT = os.environ.get("VF_OUT") or VERIF      # seeded-change runs write their evidence/replays elsewhere
+EVIDENCE = os.path.join(_OUT, "evidence")
+REPLAYS = os.path.join(_OUT, "replays")
 KNOWN = os.path.join(VERIF, "known_findings.json")
 NCPU = min(16, os.cpu_count() or 4)
 
